@@ -61,6 +61,8 @@ PROBES = {
         "merge-done",
         "compose-done",
         "client-modified-comp-read-from-map",
+        "map-derived-from-stored-map",
+        "map-with-conditions",
     ]
 }
 
@@ -168,6 +170,7 @@ class Case(object):
         self.twins = {}  # same writes, never used as an operand / evaluated / composed
         self.widened = set()
         self.held = {}
+        self.held_conds = {}
         self.mm = MemoryMap()
         self.mm2 = MemoryMap()
         self.mm_model = {}
@@ -263,7 +266,12 @@ class Case(object):
         m = self.maps.get(mid)
         if m is None:
             self.held.pop(mid, None)
+            self.held_conds.pop(mid, None)
             return
+        try:
+            self.held_conds[mid] = [[self.evaluate(c, k) for k in range(K)] for c in m.conds]
+        except Exception:
+            self.held_conds.pop(mid, None)
         snap = {}
         try:
             for loc, v in m:
@@ -330,6 +338,19 @@ class Case(object):
         from ..heap import fingerprint
 
         self.check_twins(op, widening)
+        for mid, rec in self.held_conds.items():
+            m = self.maps.get(mid)
+            if m is None:
+                continue
+            if len(m.conds) != len(rec):
+                raise Failure("map-conds-changed", {"map": mid, "was": len(rec), "now": [str(c)[:80] for c in m.conds][:6]})
+            for c, vals in zip(m.conds, rec):
+                for k in range(K):
+                    nv = self.evaluate(c, k)
+                    if vals[k][0] == "cst" and nv[0] in ("cst", "exc"):
+                        self.decided += 1
+                        if not same_value(vals[k], nv):
+                            raise Failure("map-conds-changed", {"map": mid, "cond": str(c)[:120], "valuation": k, "was": vals[k], "now": nv})
         for mid, snap in self.held.items():
             m = self.maps.get(mid)
             if m is None:
@@ -568,6 +589,29 @@ class Case(object):
             elif not x._is_reg and not x._is_cst:
                 x.sf = not x.sf
             return None
+        if k == "map_derive":
+            # a new map derived from a stored one, on which the analysis then goes on
+            # (further map_set ops): the stored one must stay what it was
+            m0 = self.maps.get(op["m0"])
+            if m0 is None or op["m"] == op["m0"]:
+                return None
+            how = op["how"]
+            if how == "use":
+                d = m0.use()
+            elif how == "eval-empty":
+                d = m0.eval(mapper())
+            elif how == "assume-empty":
+                d = m0.assume([])
+            else:
+                c = g(op["c"])
+                if c is None or c.size != 1:
+                    return None
+                d = m0.assume([c])
+                self.st.hit("probe:map-with-conditions")
+            self.maps[op["m"]] = d
+            self.twins.pop(op["m"], None)
+            self.st.hit("probe:map-derived-from-stored-map")
+            return None
         if k == "compose":
             m1, m2 = self.maps.get(op["m1"]), self.maps.get(op["m2"])
             if m1 is None or m2 is None:
@@ -744,15 +788,16 @@ class Case(object):
         for kx, n in undone.items():
             self.st.hit("undone:" + kx, n)
         self.log.event(op, outcome)
-        if op["op"] in ("map_set", "compose", "merge"):
+        if op["op"] in ("map_set", "compose", "merge", "map_derive"):
             self.held.pop(op.get("m"), None)  # legitimately written by this step
+            self.held_conds.pop(op.get("m"), None)
         try:
             self.check(op)
         except Failure as f:
             f.detail["writes"] = sorted(set("%s:%s" % (s, n) for (_, n, _, _, s) in writes))[:8]
             f.detail["outcome"] = outcome
             raise
-        if op["op"] in ("map_set", "compose", "merge"):
+        if op["op"] in ("map_set", "compose", "merge", "map_derive"):
             self.snapshot_map(op.get("m"))
         if res is not None and op.get("pub") is not None and outcome == "ok":
             self.publish(op["pub"], res)
@@ -804,7 +849,7 @@ class Gen(object):
 
     def op(self, r, case):
         kinds = [("bin", 10), ("un", 1.5), ("call", 2), ("slice", 2), ("composer", 1.5), ("tst", 1.5), ("vec", 2), ("ext", 1.5), ("simplify", 5), ("eval", 2),
-                 ("fresh_mut", 1), ("map_set", 6), ("map_get", 3), ("map_read_modify", 4), ("compose", 1), ("merge", 1), ("mmw", 1.5), ("mmr", 0.7), ("mm_use", 1.0), ("str", 1), ("pickle", 2), ("pickle_fresh", 1.5)]
+                 ("fresh_mut", 1), ("map_set", 6), ("map_get", 3), ("map_read_modify", 4), ("compose", 1.5), ("merge", 1), ("map_derive", 2.5), ("mmw", 1.5), ("mmr", 0.7), ("mm_use", 1.0), ("str", 1), ("pickle", 2), ("pickle_fresh", 1.5)]
         k = weighted(r, kinds)
         a = self.pick(r, case)
         if a is None:
@@ -913,6 +958,17 @@ class Gen(object):
             op.update({"m": "m%d" % r.randrange(3), "pub": pub})
         elif k == "map_read_modify":
             op = {"op": k, "m": "m%d" % r.randrange(3), "reg": r.choice(sorted(case.regs)), "form": r.choice(["index", "call"])}
+        elif k == "map_derive":
+            m0 = "m%d" % r.randrange(3)
+            m = r.choice([x for x in ("m0", "m1", "m2") if x != m0])
+            how = r.choice(["use", "use", "use", "eval-empty", "assume-empty", "assume", "assume", "assume"])
+            op = {"op": k, "m0": m0, "m": m, "how": how}
+            if how == "assume":
+                c = self.pick(r, case, 1)
+                if c is None:
+                    op["how"] = "use"
+                else:
+                    op["c"] = c
         elif k in ("compose", "merge"):
             op = {"op": k, "m1": "m%d" % r.randrange(3), "m2": "m%d" % r.randrange(3), "m": "m%d" % r.randrange(3)}
             if k == "merge":
@@ -930,7 +986,7 @@ class Gen(object):
             op.update({"what": what, "m": "m%d" % r.randrange(3)})
         elif k == "pickle_fresh":
             op.update({"shape": r.choice(["reg-signed", "slc-of-signed", "mem-be-mods", "cst-signed", "op-signed", "tst", "vec", "comp"])})
-        if r.random() < 0.08 and k in ("bin", "simplify", "map_set", "map_get", "merge", "compose", "str", "composer", "slice"):
+        if r.random() < 0.08 and k in ("bin", "simplify", "map_set", "map_get", "merge", "compose", "str", "composer", "slice", "map_derive"):
             op["abort"] = r.choice([0, 0, 1, 2, 4])
         return op
 
